@@ -492,15 +492,20 @@ pub fn lex_supported(src: &str) -> bool {
 /// `^"where"`, `^"define"`, `"let"`, `^"subject to"`) may split a word the model reads as one identifier
 pub fn has_glued_keyword(src: &str) -> bool {
     let lower = src.to_ascii_lowercase();
+    let mut prev = "";
     for w in lower.split(|c: char| !(c.is_alphanumeric() || c == '_' || c == '$')) {
+        if w.is_empty() { continue; }
         if w == "subject" { return true; }
-        for k in ["min", "max", "solve", "for", "in", "as", "where", "define", "let", "graph"] {
-            if w.len() > k.len() && w.starts_with(k) { return true; }
+        // the word behind `as` is a type name (`IntegerRange`): no keyword is expected there
+        if prev != "as" {
+            for k in ["min", "max", "solve", "for", "in", "as", "where", "define", "let", "graph"] {
+                if w.len() > k.len() && w.starts_with(k) { return true; }
+            }
         }
+        prev = w;
     }
     false
 }
-
 
 // ------------------------------------------------------------------------------ twin of the printable fragment
 // `coreExp` / `coreProgram` of Rooc/Syntax/FormatToks.lean, ProgramToks.lean, on the parsed tree.  The model answers
